@@ -131,6 +131,26 @@ pub fn gen(ctx: &mut Ctx) {
             f[6], f[0], f[1], f[2], f[7], f[8], f[3], f[4], f[5], f[9]
         ));
     }
+    // NEVRA pairs whose TEXTS coincide although their fields differ: the same characters cut at another '-', ':' or '.'
+    // (seed C13-8: equality through the formatted text makes such pairs `==` while `cmp` tells them apart)
+    let atoms = ["foo", "1", "0", "2", "fc40", "x86_64", "1.0", "a", "rc1"];
+    let n = ctx.q(6_000, 60_000) / sn;
+    for _ in 0..n {
+        let mut pick = |rng: &mut Rng| rng.pick(&atoms).to_string();
+        let (nm, v, r, a, x) = (pick(&mut ctx.rng), pick(&mut ctx.rng), pick(&mut ctx.rng), pick(&mut ctx.rng), pick(&mut ctx.rng));
+        let e = ctx.rng.pick(&["", "0", "1"]).to_string();
+        let e0 = if e.is_empty() { "0".to_string() } else { e.clone() };
+        // (left fields, right fields): the formatted texts name-epoch:version-release.arch are identical
+        let (l, rr): ([String; 5], [String; 5]) = match ctx.rng.below(5) {
+            0 => ([nm.clone(), e.clone(), v.clone(), format!("{}.{}", r, x), a.clone()], [nm.clone(), e0.clone(), v.clone(), r.clone(), format!("{}.{}", x, a)]),
+            1 => ([nm.clone(), e.clone(), format!("{}-{}", v, x), r.clone(), a.clone()], [nm.clone(), e0.clone(), v.clone(), format!("{}-{}", x, r), a.clone()]),
+            2 => ([format!("{}-{}:{}", nm, e0, x), "0".into(), v.clone(), r.clone(), a.clone()], [nm.clone(), e0.clone(), format!("{}-0:{}", x, v), r.clone(), a.clone()]),
+            3 => ([nm.clone(), e.clone(), v.clone(), r.clone(), a.clone()], [nm.clone(), e0.clone(), v.clone(), r.clone(), a.clone()]),
+            _ => ([format!("{}-{}", nm, x), e.clone(), v.clone(), r.clone(), a.clone()], [nm.clone(), e.clone(), format!("{}-{}", x, v), r.clone(), a.clone()]),
+        };
+        let f: Vec<String> = l.iter().chain(rr.iter()).map(|t| hx(t.as_bytes())).collect();
+        ctx.req(&format!("nevracmp {}", f.join(" ")));
+    }
     // rpm_evr_compare on whole EVR strings
     let n = ctx.q(10_000, 100_000) / sn;
     for _ in 0..n {
